@@ -14,34 +14,34 @@ Theorem C12_W_start_values :
   forall s : WeibullDistribution,
        f_pos (W_call s) ++ map snd (firstn 2 (f_kw (W_call s))) =
        c_params (WeibullDistribution_cdf s None None None).
-Proof. exact W_start_values. Qed.
+Proof. exact (@W_start_values). Qed.
 
 (* LogNormal: the start values handed to scipy are the current parameters under the same map that evaluation uses *)
 Theorem C12_LN_start_values :
   forall s : LogNormalDistribution,
        f_pos (LN_call s) ++ [0] ++ map snd (firstn 1 (f_kw (LN_call s))) =
        c_params (LogNormalDistribution_cdf RN s None None).
-Proof. exact LN_start_values. Qed.
+Proof. exact (@LN_start_values). Qed.
 
 (* Normal: the start values handed to scipy are the current parameters under the same map that evaluation uses *)
 Theorem C12_N_start_values :
   forall s : NormalDistribution,
        map snd (firstn 2 (f_kw (N_call s))) = c_params (NormalDistribution_cdf s None None).
-Proof. exact N_start_values. Qed.
+Proof. exact (@N_start_values). Qed.
 
 (* ExponentiatedWeibull: the start values handed to scipy are the current parameters under the same map that evaluation uses *)
 Theorem C12_EW_start_values :
   forall s : ExponentiatedWeibullDistribution,
        f_pos (EW_call s) ++ [0] ++ map snd (firstn 1 (f_kw (EW_call s))) =
        c_params (ExponentiatedWeibullDistribution_cdf RN s None None None).
-Proof. exact EW_start_values. Qed.
+Proof. exact (@EW_start_values). Qed.
 
 (* GeneralizedGamma: the start values handed to scipy are the current parameters under the same map that evaluation uses *)
 Theorem C12_GG_start_values :
   forall s : GeneralizedGammaDistribution,
        f_pos (GG_call s) ++ [0] ++ map snd (firstn 1 (f_kw (GG_call s))) =
        c_params (GeneralizedGammaDistribution_cdf RN s None None None).
-Proof. exact GG_start_values. Qed.
+Proof. exact (@GG_start_values). Qed.
 
 (* Weibull (last conjunct): what scipy's optimiser returned is exactly what every later evaluation uses.  PARTIAL: that the optimiser does not lose likelihood is scipy's (oracle), validated numerically by the harness *)
 Theorem C12_W_glue_roundtrip_partial :
@@ -56,7 +56,7 @@ Theorem C12_W_glue_roundtrip_partial :
          WeibullDistribution_f_beta s' = WeibullDistribution_f_beta s /\
          WeibullDistribution_f_gamma s' = WeibullDistribution_f_gamma s /\
          c_params (WeibullDistribution_cdf s' None None None) = fit (W_call s).
-Proof. exact W_fit_fixed. Qed.
+Proof. exact (@W_fit_fixed). Qed.
 
 (* LogNormal (last conjunct): what scipy's optimiser returned is exactly what every later evaluation uses.  PARTIAL: that the optimiser does not lose likelihood is scipy's (oracle), validated numerically by the harness *)
 Theorem C12_LN_glue_roundtrip_partial :
@@ -70,7 +70,7 @@ Theorem C12_LN_glue_roundtrip_partial :
          LogNormalDistribution_f_sigma s' = LogNormalDistribution_f_sigma s /\
          (0 < nth 2 (fit (LN_call s)) 1 ->
           c_params (LogNormalDistribution_cdf RN s' None None) = fit (LN_call s)).
-Proof. exact LN_fit_fixed. Qed.
+Proof. exact (@LN_fit_fixed). Qed.
 
 (* Normal (last conjunct): what scipy's optimiser returned is exactly what every later evaluation uses.  PARTIAL: that the optimiser does not lose likelihood is scipy's (oracle), validated numerically by the harness *)
 Theorem C12_N_glue_roundtrip_partial :
@@ -83,7 +83,7 @@ Theorem C12_N_glue_roundtrip_partial :
          NormalDistribution_f_mu s' = NormalDistribution_f_mu s /\
          NormalDistribution_f_sigma s' = NormalDistribution_f_sigma s /\
          c_params (NormalDistribution_cdf s' None None) = fit (N_call s).
-Proof. exact N_fit_fixed. Qed.
+Proof. exact (@N_fit_fixed). Qed.
 
 (* ExponentiatedWeibull (last conjunct): what scipy's optimiser returned is exactly what every later evaluation uses.  PARTIAL: that the optimiser does not lose likelihood is scipy's (oracle), validated numerically by the harness *)
 Theorem C12_EW_glue_roundtrip_partial :
@@ -104,7 +104,7 @@ Theorem C12_EW_glue_roundtrip_partial :
          ExponentiatedWeibullDistribution_f_beta s' = ExponentiatedWeibullDistribution_f_beta s /\
          ExponentiatedWeibullDistribution_f_delta s' = ExponentiatedWeibullDistribution_f_delta s /\
          c_params (ExponentiatedWeibullDistribution_cdf RN s' None None None) = fit (EW_call s).
-Proof. exact EW_fit_fixed. Qed.
+Proof. exact (@EW_fit_fixed). Qed.
 
 (* GeneralizedGamma (last conjunct): what scipy's optimiser returned is exactly what every later evaluation uses.  PARTIAL: that the optimiser does not lose likelihood is scipy's (oracle), validated numerically by the harness *)
 Theorem C12_GG_glue_roundtrip_partial :
@@ -124,7 +124,7 @@ Theorem C12_GG_glue_roundtrip_partial :
          GeneralizedGammaDistribution_f_lambda_ s' = GeneralizedGammaDistribution_f_lambda_ s /\
          (nth 3 (fit (GG_call s)) 1 <> 0 ->
           c_params (GeneralizedGammaDistribution_cdf RN s' None None None) = fit (GG_call s)).
-Proof. exact GG_fit_fixed. Qed.
+Proof. exact (@GG_fit_fixed). Qed.
 
 (* VonMises (last conjunct): what scipy's optimiser returned is exactly what every later evaluation uses.  PARTIAL: that the optimiser does not lose likelihood is scipy's (oracle), validated numerically by the harness *)
 Theorem C12_VM_glue_roundtrip_partial :
@@ -137,7 +137,7 @@ Theorem C12_VM_glue_roundtrip_partial :
          VonMisesDistribution_f_kappa s' = VonMisesDistribution_f_kappa s /\
          VonMisesDistribution_f_mu s' = VonMisesDistribution_f_mu s /\
          c_params (VonMisesDistribution_cdf s' None None) = firstn 2 (fit (VM_call s)).
-Proof. exact VM_fit_fixed. Qed.
+Proof. exact (@VM_fit_fixed). Qed.
 
 (* likelihood of a loc-scale family under x -> c x, loc -> c loc, scale -> c scale *)
 Theorem C12_likelihood_equivariant :
@@ -145,7 +145,7 @@ Theorem C12_likelihood_equivariant :
        0 < c ->
        scale <> 0 ->
        lik f0 (c * loc) (c * scale) (map (Rmult c) xs) = lik f0 loc scale xs / c ^ Datatypes.length xs.
-Proof. exact likelihood_equivariant. Qed.
+Proof. exact (@likelihood_equivariant). Qed.
 
 (* hence the exact maximiser is scale-equivariant (shapes unchanged) *)
 Theorem C12_maximiser_equivariant :
@@ -155,7 +155,7 @@ Theorem C12_maximiser_equivariant :
        (forall l s : R, s <> 0 -> lik f0 l s xs <= lik f0 loc scale xs) ->
        forall l s : R,
        s <> 0 -> lik f0 l s (map (Rmult c) xs) <= lik f0 (c * loc) (c * scale) (map (Rmult c) xs).
-Proof. exact maximiser_equivariant. Qed.
+Proof. exact (@maximiser_equivariant). Qed.
 
 Example C12_nonvacuous : lik (fun z => z) 0 2 [4; 6] = (4 / 2 / 2) * ((6 / 2 / 2) * 1).
 Proof. unfold lik, dens. f_equal; [|f_equal]; f_equal; f_equal; apply Rminus_0_r. Qed.
